@@ -51,6 +51,7 @@ struct Gen {
 	std::vector<double> delay_w;              // owner reply delay classes
 	std::string profile;
 	double p_adv_rule = 0;                    // c16: adversarial rule shapes (refused ones included)
+	double p_fat = 0;                         // heap-cap runs: values that cost the daemon kilobytes (arrays of many small numbers)
 
 	explicit Gen(uint64_t seed) : r(seed) {}
 
@@ -69,6 +70,12 @@ struct Gen {
 	}
 	JV fresh_value() {
 		valctr++;
+		if (p_fat > 0 && r.chance(p_fat)) {
+			size_t room = g_variant.max_message > 260 ? (size_t)g_variant.max_message - 200 : 60;
+			size_t n = 8 + r.below(room / 2 - 8);
+			JV a = JV::arr(); a.push(JV::num((double)valctr)); for (size_t i = 1; i < n; i++) a.push(JV::num((double)(i % 10)));
+			return a;
+		}
 		switch (r.below(8)) {
 		case 0: return JV::num((double)valctr);
 		case 1: return JV::str("s" + std::to_string(valctr));
@@ -510,6 +517,14 @@ Plan gen_base(const std::string &profile, uint64_t seed, const JV &opts) {
 	int nops = r.chance(0.5) ? 4 + (int)r.below(9) : 10 + (int)r.below(r.chance(0.2) ? 150 : 40);
 	int nclients = 2 + (int)r.below(4);
 	if (profile == "c04") h.set("observer", JV::boolean(true));
+	if (profile == "c15h") {
+		// ordinary client activity that reaches the configured heap cap (meant for the heapcap variant): the first refusal is handled like an injected failure
+		for (int i = 0; i < 12; i++) g.paths.push_back("fat/" + std::to_string(i));
+		g.p_fat = 0.7; g.w["add"] = 7; g.w["change"] = 4; g.w["remove"] = 1; g.w["get"] = 2; g.w["fetch"] = 1.5; g.w["set"] = 1; g.w["call"] = 0.5;
+		nops = 12 + (int)r.below(50);
+		h.set("shadow", JV::boolean(true)); h.set("relabel_after_fault", JV::str("C15")); h.set("ledgerprop", JV::str("C15")); h.set("memprop", JV::str("C15")); h.set("baseprop", JV::str("C15")); h.put("canary_prop", JV::str("C15"));
+		h.set("shadowprop", JV::str(opts.gets("shadowprop", "C15")));
+	}
 	if (profile == "c16") h.set("notify_prop", JV::str("C16"));
 	if (profile == "c08") h.set("notify_prop", JV::str("C08"));
 	if (profile == "c05") h.set("memprop", JV::str("C05"));
@@ -547,8 +562,23 @@ Plan gen_base(const std::string &profile, uint64_t seed, const JV &opts) {
 		  Op f = g.mk("send", gc.c); JV pr = JV::obj(); pr.set("id", JV::str("obs")); JV q = JV::obj(); q.set("id", JV::str("obsq")); q.set("method", JV::str("fetch")); q.set("params", pr); f.a.set("msg", q); g.p.ops.push_back(f); }
 		for (auto &a : later) g.p.ops.push_back(a);
 	}
-	for (int i = 0; i < nclients && i < 2; i++) g.op_connect(i == 0 && profile == "c04");
+	for (int i = 0; i < nclients && i < 2; i++) g.op_connect(i == 0 && (profile == "c04" || profile == "c15h"));
 	if (profile == "c16") { int na = 3 + (int)r.below(5); double save = g.p_batch; for (int i = 0; i < na; i++) { std::map<std::string, double> w2 = g.w; g.w.clear(); g.w["add"] = 1; g.op_request(); g.w = w2; } g.p_batch = save; }
+	if (profile == "c15h") {
+		// the first client fills the heap to 55..98 % of what is left below the cap; it stays connected
+		double budget = (double)g_variant.heap_kb * 1024 - 9000.0 * nclients - 6000;
+		double target = budget * (0.55 + 0.43 * r.unit()), est = 0;
+		size_t room = g_variant.max_message > 260 ? (size_t)g_variant.max_message - 200 : 60;
+		for (int i = 0; est < target && i < 40; i++) {
+			size_t n = std::min<size_t>(room / 2, (size_t)((target - est) / 72) + 2);
+			JV a = JV::arr(); for (size_t k = 0; k < n; k++) a.push(JV::num((double)(k % 10)));
+			std::string path = "fill/" + std::to_string(i);
+			JV pr = JV::obj(); pr.set("path", JV::str(path)); pr.set("value", a);
+			Op o = g.mk("send", 0); JV q = JV::obj(); q.set("id", JV::str("fill" + std::to_string(i))); q.set("method", JV::str("add")); q.set("params", pr); o.a.set("msg", q); o.dt = 0; g.p.ops.push_back(o);
+			g.owner_of[path] = 0; g.is_state[path] = true; if (i < 3) g.paths.push_back(path);
+			est += 72.0 * (double)n + 400;
+		}
+	}
 	if (profile == "c04") {
 		// the first client is the observer: fetch-all, never closed by the plan
 		Op o = g.mk("send", 0); JV pr = JV::obj(); pr.set("id", JV::str("obs")); JV q = JV::obj(); q.set("id", JV::str("obsreq")); q.set("method", JV::str("fetch")); q.set("params", pr); o.a.set("msg", q); g.p.ops.push_back(o);
@@ -556,7 +586,7 @@ Plan gen_base(const std::string &profile, uint64_t seed, const JV &opts) {
 	for (int i = 0; i < nops; i++) {
 		double x = r.unit();
 		if ((int)g.cl.size() < nclients && x < 0.15) g.op_connect();
-		else if (x < 0.2 && g.cl.size() > 1) { if (profile == "c04" && g.cl.size() > 0) { /* keep observer */ GClient *v = g.alive_client(); if (v && v->c == 0) continue; } g.op_close(); }
+		else if (x < 0.2 && g.cl.size() > 1) { if ((profile == "c04" || profile == "c15h") && g.cl.size() > 0) { /* keep observer */ GClient *v = g.alive_client(); if (v && v->c == 0) continue; } g.op_close(); }
 		else if (x < 0.23 && (int)g.cl.size() < g.max_clients) g.op_connect();
 		else if (profile == "c05" && x < 0.30) g.op_violation_then_close();
 		else if ((profile == "c04" || profile == "c01") && x < 0.26 && i > 1 && g.p.ops.size() < 200) g.pat_collisions();
@@ -1475,8 +1505,21 @@ Plan c15_scenario(int idx) {
 std::vector<std::string> list_profiles() { return {"base", "c01", "c03", "c04", "c05", "c14", "c02", "c06", "c07", "c08", "c16", "c12", "c13", "c09", "c10", "c11", "c20", "c19"}; }
 
 static Plan generate_plan_inner(const std::string &profile, uint64_t seed, const JV &opts);
-Plan generate_plan(const std::string &profile, uint64_t seed, const JV &opts) {
+Plan generate_plan(const std::string &profile_in, uint64_t seed, const JV &opts) {
+	// "<profile>+af": the profile's plan with one to four allocations made to fail after start-up (random multi-fault runs of C15)
+	std::string profile = profile_in; bool af = false;
+	{ size_t pos = profile.find("+af"); if (pos != std::string::npos) { profile = profile.substr(0, pos); af = true; } }
 	Plan p = generate_plan_inner(profile, seed, opts);
+	if (af && p.hdr.gets("mode", "exact") == "exact") {
+		Rng r(mix64(seed, 0xA110CF));
+		int nf = r.chance(0.7) ? 1 : 2 + (int)r.below(3);
+		uint64_t span = 60 + 25 * (uint64_t)p.ops.size();
+		JV rel = JV::arr(); for (int i = 0; i < nf; i++) rel.push(JV::num((double)(1 + r.below(span))));
+		p.hdr.put("allocfail_rel", rel); p.hdr.put("shadow", JV::boolean(true));
+		p.hdr.put("relabel_after_fault", JV::str("C15")); p.hdr.put("ledgerprop", JV::str("C15")); p.hdr.put("memprop", JV::str("C15")); p.hdr.put("baseprop", JV::str("C15")); p.hdr.put("canary_prop", JV::str("C15"));
+		p.hdr.put("shadowprop", JV::str(opts.gets("shadowprop", "C15")));
+		p.profile = profile_in;
+	}
 	// a sanitizer report or crash is attributed to the property whose check is running, unless the profile says otherwise
 	if (opts.has("memprop") && !p.hdr.has("memprop")) p.hdr.set("memprop", JV::str(opts.gets("memprop")));
 	return p;
